@@ -348,6 +348,30 @@ func (o *oracle) checkSigned(inst *Instance, ev *CkptEvent) {
 				}
 			}
 		}
+		// a second log of the same operator in the same process: other name, the
+		// same key objects. Its checkpoints carry ITS OWN cosignature.
+		alias := *inst.cfg
+		alias.Name = inst.name + "-sibling"
+		if ck, err := ctlog.VerifSignTreeHead(&alias, sth.Size, [32]byte(sth.Root), sth.Timestamp); err == nil {
+			av1, e1 := sunlight.NewRFC6962Verifier(alias.Name, inst.key.Public())
+			av2, e2 := torchwood.NewCosignatureVerifierFromKey(alias.Name, inst.wkey.PublicKey())
+			if e1 == nil && e2 == nil {
+				w.sim.Probe("c11.sibling")
+				an, err := note.Open(ck, note.VerifierList(av1, av2))
+				if err != nil {
+					o.v("C11", "sibling-log", "a checkpoint signed for %s (same keys, same process) does not open with its verifiers: %v", alias.Name, err)
+				} else {
+					var s1, s2 bool
+					for _, s := range an.Sigs {
+						s1 = s1 || (s.Name == av1.Name() && s.Hash == av1.KeyHash())
+						s2 = s2 || (s.Name == av2.Name() && s.Hash == av2.KeyHash())
+					}
+					if !s1 || !s2 {
+						o.v("C11", "sibling-log", "a checkpoint signed for %s (same keys, same process) lacks its own RFC 6962 signature (%v) or ML-DSA cosignature (%v)", alias.Name, s1, s2)
+					}
+				}
+			}
+		}
 	}
 }
 
